@@ -11,6 +11,9 @@ PARTIAL = ['C05_model_partial: there is no Lean model of the individual matrix c
 ASSUMPTIONS = ['cells are inserted in a valid filtration order with increasing identifiers', 'identity checks use default identifiers (rows = positions); custom identifiers are covered at barcode level']
 
 
+RELEASE_STREAMS = True
+
+
 def run(ctx, vine=False, rep=False, pid='C05'):
     thorough = ctx.tier == 'thorough'
     ctx.rule = ('random filtered simplicial complexes (<= 6 vertices, dim <= 3, random linear extension of the face order) and sub-complexes of small 2D cubical grids as general cell complexes, '
@@ -37,9 +40,20 @@ def run(ctx, vine=False, rep=False, pid='C05'):
             p = 2 if not caps['zp'] else ctx.rng.choice([2, 3, 3, 5, 7])
             # chain flavour: representative cycles assume identifiers = positions (known finding of C08), so those streams keep default identifiers and no swaps
             chain_rep = rep and caps['flav'] == 2
-            cases.append(pmgen.gen_case(ctx.rng, caps, p=p, want_vine=vine and not chain_rep, want_rep=rep, custom_ids=(k % 5 == 4) and not chain_rep, plain_ids=chain_rep))
+            cases.append(pmgen.gen_case(ctx.rng, caps, p=p, want_vine=vine and not chain_rep, want_rep=rep, custom_ids=((k % 5 == 4) or bool(caps.get('barcode_on_demand') and k % 2 == 1)) and not chain_rep, plain_ids=chain_rep))
         nontriv = lambda c: sum(1 for l in c if l.startswith('ins')) >= 6 and any(':' in l and 'inf' not in l.split()[-1] for l in pmgen.simulate(c) if l and l.startswith('bars'))
         vlib.correspondence(ctx, name, [exe], drv, cases, nontrivial=nontriv, keep_prefix=2, oracle=pmgen.oracle, valid=pmgen.valid)
+    # release builds (-O2 -DNDEBUG): the checks inside GUDHI_CHECK / assert are compiled out, nothing the property relies on may live there
+    rel = [c for c in cfgs if 'COLT=VECTOR' in c[1]] + [c for c in cfgs if 'COLT=VECTOR' not in c[1]][::4]
+    if not thorough: rel = rel[:4]
+    if not RELEASE_STREAMS: rel = []
+    rexes, rerrs = pmgen.build(ctx, rel, release=True)
+    for name, d, caps in rel:
+        exe = rexes.get('hPM_' + name + '_rel')
+        if exe is None: continue
+        chain_rep = rep and caps['flav'] == 2
+        cases = [pmgen.gen_case(ctx.rng, caps, p=2 if not caps['zp'] else ctx.rng.choice([2, 3, 5]), want_vine=vine and not chain_rep, want_rep=rep, plain_ids=chain_rep) for _ in range(2 * n if 'COLT=VECTOR' in d else n)]
+        vlib.correspondence(ctx, name + '_release', [exe], drv, cases, keep_prefix=2, oracle=pmgen.oracle, valid=pmgen.valid)
     vlib.run_known_witnesses(ctx, live, drv, pmgen.oracle)
     ctx.extra['instantiations_that_do_not_compile'] = {k: v[-200:] for k, v in errs.items()}
     if not exes or all(v is None for v in exes.values()):
@@ -50,7 +64,8 @@ def run(ctx, vine=False, rep=False, pid='C05'):
         for name, d, caps in san:
             exe = sexes.get('hPM_' + name + '_san')
             if exe is None: continue
-            cases = [pmgen.gen_case(ctx.rng, caps, p=2 if not caps['zp'] else 3, want_vine=vine, want_rep=rep) for _ in range(150)]
+            chain_rep = rep and caps['flav'] == 2        # same restriction as the main streams (known finding of C08)
+            cases = [pmgen.gen_case(ctx.rng, caps, p=2 if not caps['zp'] else 3, want_vine=vine and not chain_rep, want_rep=rep, plain_ids=chain_rep) for _ in range(150)]
             vlib.correspondence(ctx, name + '_asan_ubsan', [exe], drv, cases, keep_prefix=2, oracle=pmgen.oracle, valid=pmgen.valid)
     ctx.extra['partial'] = PARTIAL_BY[pid]
 
@@ -60,10 +75,11 @@ PARTIAL_BY = {'C05': PARTIAL}
 
 
 def replay_cmds(ctx, rp):
-    name = rp.get('stream', '').replace('_asan_ubsan', '')
+    stream = rp.get('stream', ''); rel = stream.endswith('_release')
+    name = stream.replace('_asan_ubsan', '').replace('_release', '')
     for n, d, caps in pmgen.thorough_cfgs():
         if n == name:
-            exes, errs = pmgen.build(ctx, [(n, d, caps)])
-            e = exes.get('hPM_' + n)
+            exes, errs = pmgen.build(ctx, [(n, d, caps)], release=rel)
+            e = exes.get('hPM_' + n + ('_rel' if rel else ''))
             return ([e], [vlib.driver_path(), 'PM']) if e else None
     return None
